@@ -289,7 +289,9 @@ func (t *table) Matches(relations []relationID) bool {
 		//if rel.target == wildcard {
 		//	continue
 		//}
-		if rel.target != t.components[rel.component.id].target {
+		column := t.components[rel.component.id]
+		// A table without the relation component has no such target: no match.
+		if column == nil || rel.target != column.target {
 			return false
 		}
 	}
